@@ -16,12 +16,19 @@ func (server *RunningJob) AwaitStop() {
 func SpawnJob(start func(), shutdown func()) RunningJob {
 	stop := make(chan struct{})
 	closed := make(chan struct{})
+	finished := make(chan struct{})
 	go func() {
 		<-stop
 		shutdown()
+		// Also wait for start to return: it may still hold resources that shutdown could
+		// not see yet (e.g. a listener bound by ListenAndServe but not yet registered).
+		<-finished
 		close(closed)
 	}()
-	go start()
+	go func() {
+		start()
+		close(finished)
+	}()
 	return RunningJob{stop: stop, closed: closed}
 }
 
